@@ -888,6 +888,7 @@ def states_queried(P, fn):
 STATE_SPEC = {
     "<liquid_lib::stdlib::filters::DefaultFilter as liquid_core::parser::filter::Filter>::evaluate": ({"DefaultValue"}, "default replaces nil, false and empty values only"),
     "<liquid_lib::stdlib::blocks::if_block::ExistenceCondition>::evaluate": ({"Truthy"}, "a bare value is tested for truthiness"),
+    "<liquid_lib::stdlib::filters::array::WhereFilter as liquid_core::parser::filter::Filter>::evaluate": ({"Truthy"}, "where without a target keeps objects whose property is truthy"),
 }
 
 
